@@ -259,13 +259,13 @@ def calculate_pfid_matrix_gaussian_irf(
 
     a = np.zeros((len(model_axis), len(rates)), dtype=np.complex128)
     a[np.ix_(left_shifted_axis_indices, neg_idx)] = np.exp(
-        (-1 * left_shifted_axis[:, None] + 0.5 * dk[:]) * k[:]
+        (-1 * left_shifted_axis[:, None] + 0.5 * dk[neg_idx]) * k[neg_idx]
     )
 
     b = np.zeros((len(model_axis), len(rates)), dtype=np.complex128)
     # For negative rates we flip the sign of the `erf` by using `-sqwidth` in lieu of `sqwidth`
     b[np.ix_(left_shifted_axis_indices, neg_idx)] = 1 + erf(
-        (left_shifted_axis[:, None] - dk[:]) / -sqwidth
+        (left_shifted_axis[:, None] - dk[neg_idx]) / -sqwidth
     )
 
     osc = -(a * b) * scale
